@@ -2276,8 +2276,10 @@ impl<'a> CompilerState<'a> {
         let mut v = String::new();
         let it = p.into_inner();
         for i in it {
-            let j = i.as_str().parse::<usize>().unwrap();
-            v.push_str(&compile_quoted_string_ex(&self.context.literal_strings[j]));
+            // The placeholder may have been typed in the source: ignore one that names no literal
+            if let Some(s) = i.as_str().parse::<usize>().ok().and_then(|j| self.context.literal_strings.get(j)) {
+                v.push_str(&compile_quoted_string_ex(s));
+            }
         }
         v.push(char::from_u32(0).unwrap());
         v
